@@ -32,7 +32,16 @@ package httpserver
 // whose handler the mux really obtained for it, and by the credential store in
 // force when it was evaluated: between the beginning of a push and quiescence
 // after it (and for a generation closed while the request was inside) both the
-// old and the new store are accepted as reference.
+// old and the new store are accepted as reference. Store changes are also made
+// back to back (two or more snapshots delivered to every watcher directly after
+// each other, as the syncer does for quick successive writes): while they are
+// in flight every snapshot of the batch is a valid reference, once the system
+// has settled only the LAST one is (class C06.basic-older-snapshot-wins when an
+// earlier snapshot of the batch explains what happened instead). "Settled" has
+// no wall-clock meaning: all snapshots were taken over by the watchers, virtual
+// time has passed (= every goroutine was durably blocked) and four more
+// scheduling rounds were granted; goroutines started inside basicauth.go begin
+// behind a scheduler gate (check.json go_gates).
 //
 // Oracle (written from the property statement, doc/reference/filters.md
 // "Validator", RFC 7519/7617 and the Signature V4 procedure):
@@ -276,6 +285,7 @@ type c06Event struct {
 	N      int     `json:"n"`      // gen: which key / which value
 	Secret string  `json:"secret"` // gen: the new secret
 	Op     string  `json:"op"`     // push: remove | replace | add
+	Chain  bool    `json:"chain"`  // push: made directly after the preceding push, without waiting for the system to settle in between
 	User   c06User `json:"user"`   // push: the user concerned (new password for replace/add)
 }
 
@@ -1008,7 +1018,11 @@ func c06GenEvents(rng *sim.Rand, sc *c06Scenario) {
 			sc.Events = append(sc.Events, genEv())
 			ng--
 		default:
-			sc.Events = append(sc.Events, pushEv())
+			ev := pushEv()
+			if n := len(sc.Events); n > 0 && sc.Events[n-1].Kind == "push" && rng.Bool(0.6) {
+				ev.Chain, ev.GapUs = true, 0
+			}
+			sc.Events = append(sc.Events, ev)
 			np--
 		}
 	}
@@ -1931,8 +1945,10 @@ func (c *c06Chain) candidateStores(rec *c06Rec) [][]c06User {
 		}
 		out = append(out, ep.users)
 	}
-	if c.pending != nil && !c.pending.start.After(hi) {
-		out = append(out, c.pending.users)
+	for _, ep := range c.pending {
+		if !ep.start.After(hi) {
+			out = append(out, ep.users)
+		}
 	}
 	return out
 }
@@ -1959,6 +1975,34 @@ func (c *c06Chain) judgeBasic1(op *c06Op, info *c06Info, rec *c06Rec) c06Judgeme
 		}
 	}
 	return first
+}
+
+// olderSnapshotExplains: the request was evaluated after several snapshots of
+// the credential store had been pushed back to back and the system had
+// settled, and what happened to it is what an EARLIER snapshot of that batch
+// (not the last one) prescribes.
+func (c *c06Chain) olderSnapshotExplains(rec *c06Rec, op *c06Op, info *c06Info, accepted bool) bool {
+	n := len(c.epochs)
+	if n < 2 {
+		return false
+	}
+	// the newest settled batch before the request
+	last := -1
+	for j := n - 1; j >= 1; j-- {
+		if !c.epochs[j].settled.After(rec.tA) {
+			last = j
+			break
+		}
+	}
+	if last < 1 {
+		return false
+	}
+	for j := last - 1; j >= 1 && c.epochs[j].settled.Equal(c.epochs[last].settled); j-- {
+		if v := c.judgeBasicIn(c.epochs[j].users, op, info).v; v == c06Accept && accepted || v == c06Reject && !accepted {
+			return true
+		}
+	}
+	return false
 }
 
 func (c *c06Chain) judgeBasicIn(users []c06User, op *c06Op, info *c06Info) c06Judgement {
@@ -2174,6 +2218,8 @@ func (c *c06Chain) evaluate(id string, op *c06Op, info *c06Info, rec *c06Rec, re
 			class = "C06.sig-query-space-not-v4"
 		case m == "signature" && bodyCovered && len(info.sentBody) > 0 && strings.Contains(rec.tags, "verification failed"):
 			class = "C06.sig-body-not-covered"
+		case m == "basic" && c.olderSnapshotExplains(rec, op, info, accepted):
+			class = "C06.basic-older-snapshot-wins"
 		case m == "basic" && strings.Contains(op.BasicPass, ":"):
 			class = "C06.basic-password-colon-rejected"
 		case m == "headers" && firstOnly:
@@ -2187,6 +2233,8 @@ func (c *c06Chain) evaluate(id string, op *c06Op, info *c06Info, rec *c06Rec, re
 			class = "C06.sig-body-swap-accepted"
 		case why == "basic-colon-suffix":
 			class = "C06.basic-colon-suffix-accepted"
+		case strings.HasPrefix(why, "basic-") && c.olderSnapshotExplains(rec, op, info, accepted):
+			class = "C06.basic-older-snapshot-wins"
 		}
 		r.Violate(class, "%s: request that must be rejected (%s) was let through; %s\n%s", id, why, at, desc)
 	}
@@ -2293,10 +2341,14 @@ func c06Exec(r *sim.Run, sci interface{}) {
 	if len(sc.Events) > 0 {
 		r.Go("admin", func() {
 			gens, pushes := 0, 0
+			chained := map[int]bool{}
 			for ei := range sc.Events {
 				ev := &sc.Events[ei]
 				if r.Aborted() {
 					return
+				}
+				if chained[ei] {
+					continue // was made together with the preceding push
 				}
 				gap := ev.GapUs
 				if gap < 0 || gap > 60_000_000 {
@@ -2320,9 +2372,20 @@ func c06Exec(r *sim.Run, sci interface{}) {
 						continue
 					}
 					pushes++
-					c.push(c06ApplyPush(c.users, ev))
+					states := [][]c06User{c06ApplyPush(c.users, ev)}
 					r.Probe("c06.store.push." + ev.Op)
 					sig = append(sig, "P"+ev.Op)
+					for j := ei + 1; j < len(sc.Events) && sc.Events[j].Kind == "push" && sc.Events[j].Chain && pushes < 4; j++ {
+						pushes++
+						chained[j] = true
+						states = append(states, c06ApplyPush(states[len(states)-1], &sc.Events[j]))
+						r.Probe("c06.store.push." + sc.Events[j].Op)
+						sig = append(sig, "Pc"+sc.Events[j].Op)
+					}
+					if len(states) > 1 {
+						r.Probe("c06.store.snapshots_back_to_back")
+					}
+					c.pushAll(states)
 				}
 			}
 		})
@@ -2851,7 +2914,7 @@ func TestVerifC06(t *testing.T) {
 			"both answers (probes only): request signed with the spec's accessKeyId/accessKeySecret pair; literal without signingKeyPrefix; scheme word in another case or followed by two spaces, unpadded base64; UNSIGNED-PAYLOAD signed over an empty body; signed path rewritten by the server's rewriteTarget; generation whose first read of the credential store failed",
 			"a signature section without accessKeys knows no key: every request must be rejected with invalid + 401/400",
 			"excludeBody: body corruption is expected to be accepted", "stream mode (clientMaxBodySize -1) only through probes",
-			"credential-store change: from the beginning of a push until the system was quiescent after it both stores are valid references; a generation closed while a request is inside it may have stopped following the store",
+			"credential-store changes may come back to back: until the system is quiescent after the last one every snapshot of the batch is a valid reference, afterwards only the last one", "credential-store change: from the beginning of a push until the system was quiescent after it both stores are valid references; a generation closed while a request is inside it may have stopped following the store",
 			"a request is judged by the Validator configuration of the pipeline generation whose handler the mux obtained for it", "the front server has no idle timeout (clients replace connections idle for 30 s themselves)"},
 	})
 }
